@@ -6,7 +6,7 @@ use super::{
     AxisChunks, AxisChunksMut, AxisIter, AxisIterMut, InnerIter, InnerIterBase, InnerIterMut, Iter,
     IterMut, LaneRanges, Lanes, LanesMut, Offsets, OffsetsKind,
 };
-use crate::Storage;
+use crate::{Storage, TensorBase};
 use crate::layout::{Layout, MutLayout, RemoveDim};
 
 /// Generate the body of an [`IntoParallelIterator`] impl which uses [`ParIter`]
@@ -166,8 +166,12 @@ where
 impl<'a, T, L: MutLayout> SplitIterator for AxisChunks<'a, T, L> {
     fn split_at(mut self, index: usize) -> (Self, Self) {
         let (left_remainder, right_remainder) = if let Some(remainder) = self.remainder.take() {
-            let (l, r) = remainder.split_at(self.axis, self.chunk_size * index);
-            (Some(l), Some(r))
+            // The last chunk may be shorter than `chunk_size`, so clamp the
+            // split position. An empty half has no remainder.
+            let mid = (self.chunk_size * index).min(remainder.size(self.axis));
+            let (l, r) = remainder.split_at(self.axis, mid);
+            let non_empty = |view: TensorBase<_, L>| (view.size(self.axis) > 0).then_some(view);
+            (non_empty(l), non_empty(r))
         } else {
             (None, None)
         };
@@ -194,8 +198,12 @@ impl<'a, T, L: MutLayout + Send> IntoParallelIterator for AxisChunks<'a, T, L> {
 impl<'a, T, L: MutLayout> SplitIterator for AxisChunksMut<'a, T, L> {
     fn split_at(mut self, index: usize) -> (Self, Self) {
         let (left_remainder, right_remainder) = if let Some(remainder) = self.remainder.take() {
-            let (l, r) = remainder.split_at_mut(self.axis, self.chunk_size * index);
-            (Some(l), Some(r))
+            // The last chunk may be shorter than `chunk_size`, so clamp the
+            // split position. An empty half has no remainder.
+            let mid = (self.chunk_size * index).min(remainder.size(self.axis));
+            let (l, r) = remainder.split_at_mut(self.axis, mid);
+            let non_empty = |view: TensorBase<_, L>| (view.size(self.axis) > 0).then_some(view);
+            (non_empty(l), non_empty(r))
         } else {
             (None, None)
         };
